@@ -29,7 +29,7 @@ func TestC01(t *testing.T) {
 	reg := vhdr.NewRegistry()
 	synctest.Test(t, func(t *testing.T) {
 		drift := header.VerifClockDrift()
-		tvs := hv.TVs()
+		tvs := append(hv.TVs(), hv.TV{Term: "(TVPlain 99)", F: func() error { panic("scripted panic in the header type's Verify") }})
 		type hrel struct {
 			name string
 			t, u func(base uint64) (uint64, uint64)
@@ -79,14 +79,22 @@ func TestC01(t *testing.T) {
 										f := tv.F
 										vhdr.SetPolicy(func(_, _ *vhdr.Header) error { return f() })
 										var err error
+										panicked := false
 										func() {
 											defer func() {
 												if r := recover(); r != nil {
 													err = fmt.Errorf("PANIC %v", r)
+													panicked = true
 												}
 											}()
 											err = header.Verify(tr, un)
 										}()
+										if panicked && tv.Term == "(TVPlain 99)" {
+											// the scripted panic of the type-level Verify propagated: nothing was accepted;
+											// the case is only emitted (as a rejection the model expects) when it was swallowed
+											w.Count("type_level_panic", "propagated")
+											continue
+										}
 										obs := hv.Observe(err)
 										term := fmt.Sprintf("Case01 %s %s %s %s %s %s", emit.Z(now.UnixNano()), emit.Z(int64(drift)),
 											tv.Term, reg.Term(tr), reg.Term(un), obs)
